@@ -1713,8 +1713,8 @@ var c04Mutants = []Mutant{
 		New: "err = broadcastMsg(MsgPrePrepare, preparedValue, ppjCache)"},
 	// T5
 	{ID: "C04-T5-resend-prepared-value", File: c04File, Expect: "T5|carries qCommit",
-		Old: "err = broadcastMsg(MsgDecided, qCommitValue, qCommit)",
-		New: "err = broadcastMsg(MsgDecided, preparedValue, qCommit)",
+		Old:  "err = broadcastMsg(MsgDecided, qCommitValue, qCommit)",
+		New:  "err = broadcastMsg(MsgDecided, preparedValue, qCommit)",
 		More: [][2]string{{"\t\t\t\tqCommitValue = msg.Value()\n", "\t\t\t\tqCommitValue = msg.Value()\n\t\t\t\t_ = qCommitValue\n"}}},
 	{ID: "C04-T5-answers-wrong-type", File: c04File, Expect: "T5|ROUND-CHANGE→DECIDED",
 		Old: "msg.Source() != process && msg.Type() == MsgRoundChange && // Algorithm 3:17",
